@@ -58,8 +58,10 @@ DEPENDS = {
     'C03': ['C04', 'C05', 'C06'],
     # an SDO write to a PDO parameter object that is answered with the wrong verdict is a wrong SDO answer
     'C04': ['C06', 'C14'],
-    'C10': ['C08'],
-    'C11': ['C08'],
+    # producer and consumer share the timer pool: a stale action id kept by one of them is how the other one's action gets
+    # deleted (seeds C10-16 / C11-16 were each reported by the check of the other)
+    'C10': ['C08', 'C11'],
+    'C11': ['C08', 'C10'],
     # PDO behaviour rests on the timer manager, on the dictionary, on accepted reconfigurations being carried out
     # (C14) and - for synchronous PDOs - on SYNC being recognised (C16)
     'C12': ['C08', 'C06', 'C14', 'C16'],
